@@ -128,6 +128,8 @@ def tie(tier, seed):
     agree = total = skipped = 0
     pre_met = 0
     pre_unmet = []
+    walk_met = 0
+    walk_unmet = []
     mism = []
     shapes = {}
     for item, meta, res in out:
@@ -142,17 +144,24 @@ def tie(tier, seed):
         rs = res if (res and isinstance(res[0], list)) else [res]
         for x in rs:
             total += 1
-            if len(x) == 4:
+            if len(x) >= 4:
                 # fourth column: the precondition of the totality theorem (Model/Total2.v) holds for this call
                 if x[3] == 1:
                     pre_met += 1
                 elif len(pre_unmet) < 4:
                     pre_unmet.append({"graph": item[1]})
+                # fifth column: the hypotheses of the universal path theorem (Model/Applic.v) hold for this call
+                if len(x) >= 5:
+                    if x[4] == 1:
+                        walk_met += 1
+                    elif len(walk_unmet) < 4:
+                        walk_unmet.append({"graph": item[1]})
                 x = x[:3]
             if x == [1, 1, 1]:
                 agree += 1
             elif len(mism) < 4:
                 mism.append({"graph": item[1], "columns": x})
     return {"calls_compared": total, "agree": agree, "totality_precondition_met": pre_met,
-            "totality_precondition_unmet_examples": pre_unmet, "mismatch_count": total - agree, "mismatches": mism,
+            "totality_precondition_unmet_examples": pre_unmet,
+            "path_theorem_hypotheses_met": walk_met, "path_theorem_hypotheses_unmet_examples": walk_unmet, "mismatch_count": total - agree, "mismatches": mism,
             "calls_by_shape": shapes, "skipped": skipped, "harness_errors": [repr(e)[:200] for e in errors][:3]}
